@@ -27,6 +27,10 @@ def run(rep, tier):
     common.guarded(rep, "C06.4", c11_5, rep, ix, R="C06.4")
     common.guarded(rep, "C06.5", c06_5, rep, ix, G)
     common.guarded(rep, "C06.6", c06_6, rep, ix)
+    common.guarded(rep, "C06.7", c06_7, rep, ix)
+    # the statements of the body are ordinary statements: their arguments are the evaluated expressions, in written order and unconverted
+    from . import c02
+    common.guarded(rep, "C02.3", c02.c02_3, rep, ix, gm.Model(rep))
 
 
 def c06_6(rep, ix):
@@ -339,6 +343,12 @@ def c06_3(rep, ix, G):
     # one collection feeds the outer loop
     outer = [l for l in walk_shallow(fn) if isinstance(l, ast.For) and replay_loops(l) and l not in replay_loops(fn)[-1:]]
     names = recv | {u(t) for n in walk_shallow(fn) if isinstance(n, ast.Assign) and n.value is c for t in n.targets}
+    # `for_var = values`: the collected list handed on under the name the replay loop uses is still that one list
+    handed = {}
+    for n in walk_shallow(fn):
+        if isinstance(n, ast.Assign) and len(n.targets) == 1 and isinstance(n.targets[0], ast.Name) and isinstance(n.value, ast.Name) and n.value.id in recv and n.targets[0].id in names | {u(l.iter) for l in walk_shallow(fn) if isinstance(l, ast.For)}:
+            handed[n.value.id] = n.targets[0].id
+    names = {handed.get(x, x) for x in names}
     for l in walk_shallow(fn):
         if isinstance(l, ast.For) and any(isinstance(x, ast.For) and u(x.iter) == "ctx.statement_list" for x in l.body):
             rep.check(u(l.iter) in names and len(names) == 1, R, ix.site(ex, l), "the outer loop runs over exactly the values produced by the header (`%s`)" % u(l.iter), "header values are collected in %s" % sorted(names),
@@ -348,9 +358,40 @@ def c06_3(rep, ix, G):
             for a in walk_shallow(fn):
                 if isinstance(a, ast.Assign) and any(isinstance(t, ast.Name) and t.id == src for t in a.targets) and pos(a) < pos(l):
                     v = a.value
-                    okv = (isinstance(v, ast.List) and not v.elts) or v is c or (isinstance(v, ast.Call) and u(v.func) == "range")
+                    okv = (isinstance(v, ast.List) and not v.elts) or v is c or (isinstance(v, ast.Call) and u(v.func) == "range") or (isinstance(v, ast.Name) and handed.get(v.id) == src)
                     rep.check(okv, R, ix.site(ex, a), "`%s`: the header values are replayed as collected (a Python list / range; no conversion that could coerce or reorder them)" % " ".join(u(a).split())[:60],
                               "the values are converted before the per-value type check (e.g. np.array coerces a mixed list to one dtype)", key="outer convert|" + " ".join(u(a).split())[:60])
+
+
+def c06_7(rep, ix):
+    R = "C06.7"
+    rep.rule(R, "every grammatical range header reaches the replay loop: ascending, empty (start = stop), descending (start > stop, which unrolls to nothing) and stepped ranges alike - "
+                "decided by the reachability of the replay loop under range models", floor=4)
+    from ..py.guards import Kind
+    ex = ix.func(EXIT)
+    fn = ex.node
+    outer = [l for l in walk_shallow(fn) if isinstance(l, ast.For) and any(isinstance(x, ast.For) and u(x.iter) == "ctx.statement_list" for x in l.body)]
+    if len(outer) != 1:
+        raise Inconclusive("exitForloop: replay loop not recognised")
+    l = outer[0]
+    src = u(l.iter)
+    for name, (a, b, c_) in (("ascending 0:3", (0, 3, 1)), ("empty 2:2", (2, 2, 1)), ("descending 3:0", (3, 0, 1)), ("stepped 5:2:2", (5, 2, 2)), ("stepped 0:6:2", (0, 6, 2))):
+        rng = Kind("Range", {"range", "object"}, extra={"start": a, "stop": b, "step": c_})
+
+        def atom(node, rng=rng):
+            t = " ".join(u(node).split())
+            if isinstance(node, ast.Name) and node.id == src:
+                return rng
+            if t in ("ctx.rangeval()", "ctx.NAME()", "ctx.vartype()"):
+                return "CTX"
+            if t == "ctx.vallist()":
+                return None
+            if isinstance(node, ast.Call) and u(node.func) == "len" and len(node.args) == 1 and u(node.args[0]) == src:
+                return len(range(rng.extra["start"], rng.extra["stop"], rng.extra["step"]))
+            return AEval.NO
+        r_ = Reach(fn, l)
+        ok = r_.may_reach(atom)
+        rep.check(ok, R, ix.site(ex, l), "the range %s reaches the replay loop" % name, "a statement in front of the loop leaves the handler for this header", key="range reach|" + name)
 
 
 # -------------------------------------------------------------------------------------- C06.5 scope
